@@ -167,6 +167,7 @@ func (c Case) newSite(name, router string, second bool) *site {
 	spec := vkit.DefaultProviderSpec(router)
 	spec.Post, spec.PKJWT, spec.Refresh = c.Flags.Post, c.Flags.PKJWT, c.Flags.Refresh
 	spec.Caps = vkit.Caps{CC: c.Flags.CC, TE: c.Flags.TE, Device: c.Flags.Device}
+	spec.LaxSubject = c.Flags.LaxSub
 	if second {
 		spec.CryptoKey = 0x5a // the two providers do not share the key that seals opaque tokens and codes
 	}
@@ -211,7 +212,7 @@ func hasTarget(tg stepTarget) bool {
 }
 
 // after something has been accepted: the presentations that only a confusion of requests / clients / registrations could let through
-var confusedPres = []string{"none", "nothing", "basic-empty", "basic-wrong", "post-wrong", "basic-other", "post-other", "assert-wrongkey", "assert-otheriss", "assert-unknownkid"}
+var confusedPres = []string{"none", "nothing", "basic-empty", "basic-wrong", "post-wrong", "basic-other", "post-other", "assert-wrongkey", "assert-otheriss", "assert-unknownkid", "assert-subneq", "assert-issneq"}
 
 func genReg(t *rapid.T, pfx string, like *Reg) Reg {
 	var r Reg
